@@ -1,2 +1,10 @@
 import Solvor.Pack.Theorems
 /-! Axiom audit for the property theorems of C16 (run by every check). -/
+#print axioms Solvor.Pack.chkSel_iff
+#print axioms Solvor.Pack.chkKnapsack_iff
+#print axioms Solvor.Pack.knapBest_optimal
+#print axioms Solvor.Pack.knapsack_dp_optimal
+#print axioms Solvor.Pack.chkPack_iff
+#print axioms Solvor.Pack.validPack_lower_bound
+#print axioms Solvor.Pack.binpack_valid
+#print axioms Solvor.Pack.knapsack_dp_eq_knapBest
